@@ -512,6 +512,83 @@ def nexml_char_doc(two, with_trees):
     return "\n".join(L) + "\n", ["DnaCharacterMatrix"] * (2 if two else 1)
 
 
+# ---------------------------------------------------------------------------
+# label-vocabulary documents: two four-leaf trees whose leaf tokens are given explicitly
+# (letters, integers that collide with taxon positions, integers beyond the namespace,
+# zero-padded and quoted integers, labels equal up to case)
+
+VOCAB_BASE = ["a", "b", "c", "d"]
+VOCAB_FIRST = ["x", "1", "2", "3", "5", "9", "01", "'2'", "A"]
+VOCAB_LATER = ["b", "x", "1", "2", "3", "4", "5", "9", "01", "02", "'2'", "'3'", "A", "B"]
+
+
+def vocab_first_variants(positions):
+    out = [list(VOCAB_BASE)]
+    for p in positions:
+        for v in VOCAB_FIRST:
+            t = list(VOCAB_BASE)
+            t[p] = v
+            out.append(t)
+    return out
+
+
+def vocab_later_variants(both_ends):
+    out = [["a", "d", "c", w] for w in VOCAB_LATER]
+    if both_ends:
+        out += [[w, "d", "c", "a"] for w in VOCAB_LATER if w != "a"]
+    return out
+
+
+def _unq(tok):
+    return tok[1:-1] if tok.startswith("'") else tok
+
+
+def vocab_newick_doc(first, later, third=None):
+    L = ["((%s,%s),(%s,%s));" % tuple(first), "((%s,%s),(%s,%s));" % tuple(later)]
+    if third:
+        L.append("(%s,(%s,(%s,%s)));" % tuple(third))
+    return "\n".join(L) + "\n", [len(L)]
+
+
+def vocab_nexus_doc(first, later, taxa, layout):
+    """taxa: 'none' | 'one' (TAXLABELS = tokens of the first tree); layout (2,) or (1,1); no TRANSLATE"""
+    L = ["#NEXUS"]
+    if taxa == "one":
+        L += ["BEGIN TAXA;", " DIMENSIONS NTAX=4;", " TAXLABELS %s;" % " ".join(first), "END;"]
+    trees = [" TREE t1 = ((%s,%s),(%s,%s));" % tuple(first), " TREE t2 = ((%s,%s),(%s,%s));" % tuple(later)]
+    if tuple(layout) == (2,):
+        L += ["BEGIN TREES;"] + trees + ["END;"]
+    else:
+        L += ["BEGIN TREES;", trees[0], "END;", "BEGIN TREES;", trees[1], "END;"]
+    return "\n".join(L) + "\n", list(layout)
+
+
+def vocab_nexml_doc(first, later, layout):
+    labels = []
+    for t in list(first) + list(later):
+        if _unq(t) not in labels:
+            labels.append(_unq(t))
+    labs = [(l, l) for l in labels]
+    L = [NEXML_HEAD.rstrip("\n"), '<otus id="o1" label="taxa_o1">']
+    for j, l in enumerate(labels):
+        L.append(' <otu id="o1_t%d" label="%s"/>' % (j, l))
+    L.append("</otus>")
+    otu_ids = ["o1_t%d" % j for j in range(len(labels))]
+    shapes = []
+    for toks in (first, later):
+        idx = [labels.index(_unq(t)) for t in toks]
+        shapes.append(((idx[0], idx[1]), (idx[2], idx[3])))
+    k = 0
+    for bi, nt in enumerate(layout):
+        L.append('<trees id="trs%d" label="block%d" otus="o1">' % (bi, bi))
+        for _ in range(nt):
+            L += [" " + x for x in nexml_tree("tr%d" % k, k, shapes[k], otu_ids, labs, k == 0, "none", False, False)]
+            k += 1
+        L.append("</trees>")
+    L.append("</nex:nexml>")
+    return "\n".join(L) + "\n", list(layout)
+
+
 def selftest():
     t, b = newick_doc(dict(n_trees=2, rooting="mixed", weights=True, com="both", nl="\n", lens="int", ilab=True))
     assert t.count(";") == 2 and b == [2]
